@@ -486,6 +486,33 @@ func (in *Interp) convert(from, to types.Type, x Value) Value {
 			if w, _, ok := intInfo(ts.Elem()); ok && w == 8 {
 				return in.stringToBytes(x)
 			}
+			if w, _, ok := intInfo(ts.Elem()); ok && w == 32 { // []rune(s)
+				cs, conc := x.ConcStr()
+				if !conc {
+					unsupported("[]rune of a symbolic string")
+				}
+				var out []Value
+				for _, r := range cs {
+					out = append(out, mkInt(uint64(uint32(r)), 32))
+				}
+				return Value{K: KSlice, R: &SliceV{S: out}}
+			}
+		}
+	}
+	if tb, ok := tu.(*types.Basic); ok && tb.Info()&types.IsString != 0 {
+		if fs, ok := fu.(*types.Slice); ok {
+			if w, _, ok := intInfo(fs.Elem()); ok && w == 32 { // string([]rune)
+				var rs []rune
+				if x.R != nil {
+					for _, c := range x.R.(*SliceV).S {
+						if c.R != nil {
+							unsupported("string of symbolic runes")
+						}
+						rs = append(rs, rune(int32(c.N)))
+					}
+				}
+				return mkStr(string(rs))
+			}
 		}
 	}
 	if types.Identical(fu, tu) {
@@ -594,7 +621,7 @@ func (in *Interp) sliceOp(g *G, fr *Frame, ins *ssa.Slice) Value {
 		if v == nil {
 			return def
 		}
-		return in.concIntChecked(g, in.get(fr, v), "slice bound")
+		return in.concIntT(in.get(fr, v), v.Type(), "slice bound")
 	}
 	switch x.K {
 	case KStr:
@@ -724,7 +751,7 @@ func (in *Interp) indexAddr(g *G, fr *Frame, ins *ssa.IndexAddr) {
 		}
 		return
 	}
-	i := in.concInt(in.get(fr, ins.Index), "index")
+	i := in.concIntT(in.get(fr, ins.Index), ins.Index.Type(), "index")
 	var elems []Value
 	switch x.K {
 	case KSlice:
@@ -752,7 +779,7 @@ func (in *Interp) indexOp(g *G, fr *Frame, ins *ssa.Index) {
 	iv := in.get(fr, ins.Index)
 	switch x.K {
 	case KArray:
-		i := in.concInt(iv, "index")
+		i := in.concIntT(iv, ins.Index.Type(), "index")
 		es := x.R.([]Value)
 		if i < 0 || i >= int64(len(es)) {
 			in.goPanic(g, "index out of range")
@@ -761,7 +788,7 @@ func (in *Interp) indexOp(g *G, fr *Frame, ins *ssa.Index) {
 		in.set(fr, ins, copyVal(es[i]))
 	case KStr:
 		if cs, ok := x.ConcStr(); ok && iv.R == nil { // concrete string, concrete index: no terms needed
-			i := sextW(iv.N, 64)
+			i := in.concIntT(iv, ins.Index.Type(), "string index")
 			if i < 0 || i >= int64(len(cs)) {
 				in.goPanic(g, fmt.Sprintf("index out of range [%d] with length %d", i, len(cs)))
 				return
@@ -773,7 +800,7 @@ func (in *Interp) indexOp(g *G, fr *Frame, ins *ssa.Index) {
 		if !ok {
 			unsupported("index of atom string")
 		}
-		i := in.concInt(iv, "string index")
+		i := in.concIntT(iv, ins.Index.Type(), "string index")
 		if i < 0 || i >= int64(len(bs)) {
 			in.goPanic(g, fmt.Sprintf("index out of range [%d] with length %d", i, len(bs)))
 			return
@@ -789,7 +816,7 @@ func (in *Interp) lookup(g *G, fr *Frame, ins *ssa.Lookup) {
 	k := in.get(fr, ins.Index)
 	if x.K == KStr {
 		if cs, ok := x.ConcStr(); ok && k.R == nil { // concrete string, concrete index: no terms needed
-			i := sextW(k.N, 64)
+			i := in.concIntT(k, ins.Index.Type(), "string index")
 			if i < 0 || i >= int64(len(cs)) {
 				in.goPanic(g, fmt.Sprintf("index out of range [%d] with length %d", i, len(cs)))
 				return
@@ -801,7 +828,7 @@ func (in *Interp) lookup(g *G, fr *Frame, ins *ssa.Lookup) {
 		if !ok {
 			unsupported("index of atom string")
 		}
-		i := in.concInt(k, "string index")
+		i := in.concIntT(k, ins.Index.Type(), "string index")
 		if i < 0 || i >= int64(len(bs)) {
 			in.goPanic(g, fmt.Sprintf("index out of range [%d] with length %d", i, len(bs)))
 			return
